@@ -98,6 +98,16 @@ class DDPDistributor(DistributorInterface):
         )
         group_rank: int = dist.get_rank(group=self._dist_group)
 
+        # NOTE: Process group creation is collective. Create the state device mesh of every group source rank on
+        # every rank, in the same order; later calls in _allocate_zeros_distributed_tensor hit the cache of get_device_mesh.
+        for group_source_rank in range(self._group_size):
+            get_device_mesh(
+                device_type=self._global_blocked_params[0].device.type,
+                mesh=tuple(
+                    range(group_source_rank, self._global_size, self._group_size)
+                ),
+            )
+
         # Assign ranks to blocks with their respective buffer size.
         buffer_size_ranks = self._distribute_buffer_sizes(
             buffer_sizes=tuple(
